@@ -143,7 +143,7 @@ Proof. exact split_ref_frame. Qed.
 
 (* ---- tie to the current source: regenerated on every run by tools/ga2coq (coq/gen) ---- *)
 From Coq Require Import String.
-From GA Require Import Guards GuardTie.
+From GA Require Import Guards GuardTieRemove.
 From GAGen Require Import GenGuards GenConstFns.
 Local Open Scope Z_scope.
 
@@ -259,7 +259,7 @@ Proof. exact src_remove_out_of_range. Qed.
 
 (* ---- T1: which trait methods are implemented (coq/gen/GenSigs.v gen_impl_methods) ---- *)
 From Coq Require Import String.
-From GA Require Import SigTie.
+From GA Require Import SigDefs.
 From GAGen Require Import GenSigs.
 Local Open Scope string_scope.
 
